@@ -263,7 +263,13 @@ func overrideConsts(cfg []byte, consts map[string]string) []byte {
 // MustTLC runs TLC and treats every non-verdict failure (timeout, parse error,
 // crash, TLC-internal error) as infrastructure error. ok lists the invariant
 // names whose violation the caller handles itself.
-func MustTLC(o TLCOpts) *TLCResult {
+func MustTLC(o TLCOpts) *TLCResult { return mustTLC(o, false) }
+
+// MustTLCAllowDeadlock is MustTLC for trace specs that signal a rejected trace
+// by a deadlock: "Deadlock reached" in Output is then a result, not a failure.
+func MustTLCAllowDeadlock(o TLCOpts) *TLCResult { return mustTLC(o, true) }
+
+func mustTLC(o TLCOpts, allowDeadlock bool) *TLCResult {
 	r, err := RunTLC(o)
 	if err != nil {
 		Infra("TLC %s/%s: %v", o.Spec, o.Cfg, err)
@@ -277,6 +283,9 @@ func MustTLC(o TLCOpts) *TLCResult {
 		Infra("TLC %s/%s timed out after %v\n%s", o.Spec, o.Cfg, o.Timeout, tail)
 	}
 	finished := strings.Contains(r.Output, "Model checking completed") || strings.Contains(r.Output, "Finished in") || strings.Contains(r.Output, "The number of states generated")
+	if allowDeadlock && strings.Contains(r.Output, "Deadlock reached") {
+		return r
+	}
 	if len(r.Violated) == 0 && !r.Assumption && (r.ExitCode != 0 || !finished) {
 		tail := r.Output
 		if len(tail) > 3000 {
